@@ -1,5 +1,151 @@
-import Knee.Model.Hull
-import Knee.Model.Metrics
+import Knee.Lemmas.Hull
+/-!
+# C18 — monotone-chain hull scans return the convex chain of an x-sorted curve
+
+Model: `Knee.hullLower`, `Knee.hullUpper` (convex_hull.graham_scan_lower / graham_scan_upper),
+`Knee.grahamScan` (convex_hull.graham_scan).  Orientation signs are exact in ℚ.
+
+For a curve `pt : Nat → P2` with `n ≥ 2` points the lower chain `H = hullLower pt n`
+* is a strictly increasing index chain from `0` to `n - 1` (`hullLower_indices`);
+* turns strictly counter-clockwise at every interior vertex (`hullLower_strict_turns`);
+* for strictly increasing x: every input point lies on or above the line through every chain edge
+  (`hullLower_supports`), in particular on or above the edge spanning its x-range.
+Together: `H` is exactly the lower convex hull (vertices only, no collinear points).
+The upper chain is the lower chain of the curve reflected in the x-axis (`hullUpper_eq_reflect`)
+and satisfies the mirror images.  Positions in a chain are read with `H[i]?.getD 0`.
+-/
 namespace Knee
-theorem stub_C18 : True := trivial
+
+/-! ### lower chain -/
+
+/-- **C18 (indices).** The lower chain is a strictly increasing index chain from `0` to `n - 1`. -/
+theorem hullLower_indices (pt : Nat → P2) (n : Nat) (hn : 2 ≤ n) :
+    let H := hullLower pt n
+    H.Pairwise (· < ·) ∧ H.head? = some 0 ∧ H.getLast? = some (n - 1) ∧ ∀ k ∈ H, k < n := by
+  intro H
+  have h := lowerStack_idx pt (n - 2)
+  have e : n - 2 + 1 = n - 1 := by omega
+  rw [e] at h
+  obtain ⟨hp, hh, hl, _⟩ := h
+  refine ⟨?_, ?_, ?_, ?_⟩
+  · exact List.pairwise_reverse.2 hp
+  · show (lowerStack pt (n - 2)).reverse.head? = _
+    rw [List.head?_reverse, hl]
+  · show (lowerStack pt (n - 2)).reverse.getLast? = _
+    rw [List.getLast?_reverse, hh]
+  · intro k hk
+    have hk' : k ∈ lowerStack pt (n - 2) := List.mem_reverse.1 hk
+    have := IdxInv.lt ⟨hp, hh, hl, ‹_›⟩ k hk'
+    omega
+
+/-- the lower chain has at least the two end points -/
+theorem hullLower_length (pt : Nat → P2) (n : Nat) : 2 ≤ (hullLower pt n).length := by
+  rw [hullLower_eq, List.length_reverse]
+  exact (lowerStack_idx pt (n - 2)).2.2.2
+
+/-- **C18 (strict turns).** Consecutive chain edges turn strictly counter-clockwise; no
+hypothesis on the curve is needed. -/
+theorem hullLower_strict_turns (pt : Nat → P2) (n : Nat) :
+    let H := hullLower pt n
+    ∀ i, i + 2 < H.length →
+      0 < ccw (pt (H[i]?.getD 0)) (pt (H[i + 1]?.getD 0)) (pt (H[i + 2]?.getD 0)) := by
+  intro H i hi
+  exact Adj3.reverse_getD (R := fun c b a => 0 < ccw (pt a) (pt b) (pt c)) _
+    (lowerStack_convex pt (n - 2)) i hi
+
+/-- **C18 (support).** On a curve with strictly increasing x, every input point lies on or above
+the line through every edge of the lower chain. -/
+theorem hullLower_supports (pt : Nat → P2) (n : Nat) (hn : 2 ≤ n)
+    (hx : ∀ i j, i < j → j < n → (pt i).1 < (pt j).1) :
+    let H := hullLower pt n
+    ∀ k, k < n → ∀ i, i + 1 < H.length →
+      0 ≤ ccw (pt (H[i]?.getD 0)) (pt (H[i + 1]?.getD 0)) (pt k) := by
+  intro H k hk i hi
+  have h := lowerStack_above hx (n - 2) (by omega)
+  exact Adj2.reverse_getD (R := fun b a => ∀ k, k ≤ n - 2 + 1 → 0 ≤ ccw (pt a) (pt b) (pt k)) _
+    h i hi k (by omega)
+
+/-! ### upper chain -/
+
+/-- The upper chain of `pt` is the lower chain of the curve reflected in the x-axis. -/
+theorem hullUpper_eq_reflect (pt : Nat → P2) (n : Nat) :
+    hullUpper pt n = hullLower (fun k => ((pt k).1, -(pt k).2)) n :=
+  hullUpper_eq_hullLower pt n
+
+/-- **C18 (indices, upper).** -/
+theorem hullUpper_indices (pt : Nat → P2) (n : Nat) (hn : 2 ≤ n) :
+    let H := hullUpper pt n
+    H.Pairwise (· < ·) ∧ H.head? = some 0 ∧ H.getLast? = some (n - 1) ∧ ∀ k ∈ H, k < n := by
+  rw [hullUpper_eq_hullLower]
+  exact hullLower_indices (reflY pt) n hn
+
+theorem hullUpper_length (pt : Nat → P2) (n : Nat) : 2 ≤ (hullUpper pt n).length := by
+  rw [hullUpper_eq_hullLower]
+  exact hullLower_length (reflY pt) n
+
+/-- **C18 (strict turns, upper).** Consecutive edges of the upper chain turn strictly clockwise. -/
+theorem hullUpper_strict_turns (pt : Nat → P2) (n : Nat) :
+    let H := hullUpper pt n
+    ∀ i, i + 2 < H.length →
+      ccw (pt (H[i]?.getD 0)) (pt (H[i + 1]?.getD 0)) (pt (H[i + 2]?.getD 0)) < 0 := by
+  rw [hullUpper_eq_hullLower]
+  intro H i hi
+  have := hullLower_strict_turns (reflY pt) n i hi
+  rw [ccw_reflY] at this
+  exact neg_pos.1 this
+
+/-- **C18 (support, upper).** On a curve with strictly increasing x, every input point lies on or
+below the line through every edge of the upper chain. -/
+theorem hullUpper_supports (pt : Nat → P2) (n : Nat) (hn : 2 ≤ n)
+    (hx : ∀ i j, i < j → j < n → (pt i).1 < (pt j).1) :
+    let H := hullUpper pt n
+    ∀ k, k < n → ∀ i, i + 1 < H.length →
+      ccw (pt (H[i]?.getD 0)) (pt (H[i + 1]?.getD 0)) (pt k) ≤ 0 := by
+  rw [hullUpper_eq_hullLower]
+  intro H k hk i hi
+  have := hullLower_supports (reflY pt) n hn hx k hk i hi
+  rw [ccw_reflY] at this
+  exact neg_nonneg.1 this
+
+/-! ### `graham_scan` sanity -/
+
+/-- `graham_scan` returns distinct, in-range original indices. -/
+theorem grahamScan_nodup_bounded (pts : List P2) :
+    (grahamScan pts).Nodup ∧ ∀ i ∈ grahamScan pts, i < pts.length :=
+  grahamScan_sound pts
+
+/-- the pop loop of `graham_scan` never empties a non-empty stack -/
+theorem popGraham_nonempty (p : P2) (st : List (P2 × Nat)) (h : st ≠ []) : popGraham p st ≠ [] :=
+  popGraham_ne_nil p st h
+
+/-- the pop loop only removes elements from the top of the stack -/
+theorem popGraham_isSuffix (p : P2) (st : List (P2 × Nat)) : popGraham p st <:+ st :=
+  popGraham_suffix p st
+
+/-! Non-vacuity: concrete curves (strictly increasing x) and the chains the model computes. -/
+
+private def curveOf (l : List P2) : Nat → P2 := fun k => l.getD k (0, 0)
+
+/-- zig-zag: the lower chain keeps only the ends, the upper chain drops the dip at index 2 -/
+example : hullLower (curveOf [(0, 0), (1, 2), (2, 1), (3, 3), (4, 0)]) 5 = [0, 4] := by decide +kernel
+example : hullUpper (curveOf [(0, 0), (1, 2), (2, 1), (3, 3), (4, 0)]) 5 = [0, 1, 3, 4] := by
+  decide +kernel
+/-- V shape -/
+example : hullLower (curveOf [(0, 2), (1, 0), (2, 2)]) 3 = [0, 1, 2] := by decide +kernel
+example : hullUpper (curveOf [(0, 2), (1, 0), (2, 2)]) 3 = [0, 2] := by decide +kernel
+/-- collinear run: the middle point is dropped by both chains (turns are strict) -/
+example : hullLower (curveOf [(0, 0), (1, 1), (2, 2)]) 3 = [0, 2] := by decide +kernel
+example : hullUpper (curveOf [(0, 0), (1, 1), (2, 2)]) 3 = [0, 2] := by decide +kernel
+/-- the x-monotonicity hypothesis is satisfiable by the zig-zag curve -/
+example : ∀ i j, i < j → j < 5 →
+    (curveOf [(0, 0), (1, 2), (2, 1), (3, 3), (4, 0)] i).1 <
+      (curveOf [(0, 0), (1, 2), (2, 1), (3, 3), (4, 0)] j).1 := by
+  intro i j hij hj
+  have : ∀ j, j < 5 → ∀ i, i < j →
+      (curveOf [(0, 0), (1, 2), (2, 1), (3, 3), (4, 0)] i).1 <
+        (curveOf [(0, 0), (1, 2), (2, 1), (3, 3), (4, 0)] j).1 := by decide +kernel
+  exact this j hj i hij
+/-- square with an interior point: the interior index 4 is discarded -/
+example : grahamScan [(0, 0), (2, 0), (2, 2), (0, 2), (1, 1)] = [0, 3, 2, 1] := by decide +kernel
+
 end Knee
